@@ -7,6 +7,7 @@ mod agg;
 mod c01;
 mod c02;
 mod c03;
+mod c05;
 mod c06;
 mod c07;
 mod c08;
@@ -20,6 +21,7 @@ macro_rules! dispatch {
             "C01" => $f(c01::C01, $($extra),*),
             "C02" => $f(c02::C02, $($extra),*),
             "C03" => $f(c03::C03, $($extra),*),
+            "C05" => $f(c05::C05, $($extra),*),
             "C06" => $f(c06::C06, $($extra),*),
             "C07" => $f(c07::C07, $($extra),*),
             "C08" => $f(c08::C08, $($extra),*),
